@@ -8,9 +8,16 @@
 (*           whose nominal form the harness knows, with at most MaxDev of   *)
 (*           its fields replaced by one of the Shapes (absent, null, scalar *)
 (*           of the wrong type, empty list, list containing null, map,      *)
-(*           deeply nested).  Two deviating fields never lie on one path.   *)
+(*           deeply nested, two nulls put in front of the list's own        *)
+(*           elements, a null and an empty map put in front of them).  Two  *)
+(*           deviating fields never lie on one path.                        *)
 (*  "tokens" a text assembled from at most MaxTok tokens of a family's      *)
-(*           alphabet (manifest stream, --set string, .helmignore lines).   *)
+(*           alphabet (manifest stream, --set string, .helmignore lines;    *)
+(*           family "recursion": token i is the body of the named template  *)
+(*           t_i of a chart whose manifest includes t_1 - plain text, an    *)
+(*           include of t_j, a tpl of a literal or of a value that includes *)
+(*           t_j, a value that runs tpl on itself - so that the texts are   *)
+(*           all call graphs over three templates through include and tpl). *)
 (*  "store"  a release store of Recs records, each intact or damaged in     *)
 (*           one of the Damages; the specification says which records a     *)
 (*           List / Query must return.                                      *)
